@@ -122,6 +122,9 @@ def showCall : Call String → String
 def showHddKey : String × String × Part × Nat → String
   | (s, d, p, f) => s!"{s}/{d}/{s}_{p.str}_{f}"
 
+def showRamKey : String × String × Part × Nat → String
+  | (s, d, p, f) => s!"{s}+{d}+{p.str}+{f}"
+
 def showContent (c : Content) : String :=
   s!"{showNatList c.idx}@{showRatList c.yTrue}@{showRatList c.yPred}"
 
@@ -179,7 +182,7 @@ def handle (toks : List String) : String :=
         if store == "hdd" then
           showHistory (hddCfg String) showHddKey nfolds (runHist (hddCfg String) L dsl sts St.empty rspecs)
         else if store == "ram" then
-          showHistory ramCfg id nfolds (runHist ramCfg L dsl sts St.empty rspecs)
+          showHistory (ramCfg String) showRamKey nfolds (runHist (ramCfg String) L dsl sts St.empty rspecs)
         else "bad-op"
     | _, _, _, _ => "bad-op"
   | _ => "bad-op"
